@@ -229,6 +229,92 @@ impl Family for BulkyLists {
     }
 }
 
+/// bulky headers (well beyond any output staging an implementation may do: 17 KB .. 400 KB of
+/// definitions) followed by every kind of ending of the response - rows and a clean finish, an
+/// error at once, an error after rows, an error behind finish_one, the same header again in a
+/// second resultset, writers dropped - in both protocols: the header the client decodes must be
+/// the declared one every time, and the next reply must not be shifted
+struct BulkyHeadersEndings;
+const BHE_SHAPES: [(usize, usize); 5] = [(400, 30), (6, 5000), (60, 300), (1200, 12), (2000, 200)];
+const BHE_ENDINGS: [&str; 8] = ["finish", "two rows, finish", "finish_error at once", "two rows, finish_error", "finish_one, then error", "finish_one, the same header again, a row, finish", "dropped after a row", "complete_one first, then the header, finish_error"];
+impl Family for BulkyHeadersEndings {
+    fn name(&self) -> String {
+        "bulky-headers-x-response-endings".into()
+    }
+    fn len(&self) -> u64 {
+        (BHE_SHAPES.len() * BHE_ENDINGS.len() * 2) as u64
+    }
+    fn run(&self, idx: u64, st: &mut Stats) -> Result<(), Violation> {
+        let d = digits(idx, &[BHE_SHAPES.len() as u64, BHE_ENDINGS.len() as u64, 2]);
+        let (n, name_len) = BHE_SHAPES[d[0] as usize];
+        let (ending, bin) = (d[1] as usize, d[2] == 1);
+        st.nontrivial += 1;
+        st.bump("bulky_headers_with_endings");
+        let cols: Arc<Vec<Column>> = Arc::new(
+            (0..n)
+                .map(|i| {
+                    let mut name = format!("c{}_", i);
+                    while name.len() < name_len {
+                        name.push((b'a' + ((i + name.len()) % 26) as u8) as char);
+                    }
+                    Column { table: ["t", "", "other_table"][i % 3].to_string(), column: name, coltype: ColumnType::MYSQL_TYPE_VAR_STRING, colflags: [ColumnFlags::empty(), ColumnFlags::NOT_NULL_FLAG, ColumnFlags::BINARY_FLAG][i % 3] }
+                })
+                .collect(),
+        );
+        let row = |r: usize| WOp::WriteRow((0..n).map(|i| Val::Str(format!("{}.{}", r, i))).collect());
+        let err = || (msql_srv::ErrorKind::ER_NO, b"no".to_vec());
+        let prog: Vec<WOp> = match ending {
+            0 => vec![WOp::Start(cols.clone()), WOp::Finish],
+            1 => vec![WOp::Start(cols.clone()), row(0), row(1), WOp::Finish],
+            2 => vec![WOp::Start(cols.clone()), WOp::FinishError(err().0, err().1)],
+            3 => vec![WOp::Start(cols.clone()), row(0), row(1), WOp::FinishError(err().0, err().1)],
+            4 => vec![WOp::Start(cols.clone()), row(0), WOp::FinishOne, WOp::Error(err().0, err().1)],
+            5 => vec![WOp::Start(cols.clone()), row(0), WOp::FinishOne, WOp::Start(cols.clone()), row(1), WOp::Finish],
+            6 => vec![WOp::Start(cols.clone()), row(0)],
+            _ => vec![WOp::CompleteOne(3, 4), WOp::Start(cols.clone()), row(0), WOp::FinishError(err().0, err().1)],
+        };
+        let cmds = if bin { vec![ClientCmd::new(with_byte(COM_STMT_PREPARE, b"id=1 p=0")), ClientCmd::new(cmd_execute(1, 0, 1, &[])), ping()] } else { vec![q(b"q"), ping()] };
+        let conv = Conv::new(cmds);
+        let s = conv.stream();
+        let stream = Arc::new(s.bytes);
+        let mut sim = sim_for(&stream, vec![]);
+        sim.log_ops = false;
+        let prog = Arc::new(prog);
+        let behave = Box::new(move |_: usize, cb: &Cb| match cb {
+            Cb::Prepare(_) => Behavior::PrepReply { id: 1, params: param_cols(0), cols: param_cols(0) },
+            Cb::Query(_) | Cb::Execute { .. } => Behavior::Prog(prog.clone()),
+            _ => Behavior::Silent,
+        });
+        let o = run_conn(sim, ConnCfg::new(behave));
+        st.transitions += n as u64;
+        let what = format!("{} definitions with names of {} bytes, then {} ({} protocol)", n, name_len, BHE_ENDINGS[ending], if bin { "binary" } else { "text" });
+        if let ConnResult::Panic(l, m) = &o.res {
+            return Err(Violation::new(panic_key(l, m), format!("{}: run_on panicked at {}: {}", what, l, m)));
+        }
+        if !o.res.is_ok() {
+            return Err(Violation::new("result-not-ok", format!("{}: run_on returned {}", what, o.res.short())));
+        }
+        let d = decode_all(delivered(&o), &conv, &s.last_seq, conv.cmds.len(), false).map_err(|e| Violation::new("reply-decode", format!("{}: {}", what, e)))?;
+        let reply = &d.replies[conv.cmds.len() - 2];
+        let mut headers = 0;
+        for u in reply {
+            if let Unit::ResultSet { cols: gc, .. } = u {
+                check_defs(gc, &cols, &what)?;
+                headers += 1;
+            }
+        }
+        let want_headers = if ending == 5 { 2 } else { 1 };
+        if headers != want_headers {
+            return Err(Violation::new("resultset-reply", format!("{}: {} resultset header(s) decoded, {} declared", what, headers, want_headers)));
+        }
+        Ok(())
+    }
+    fn describe(&self, idx: u64) -> J {
+        let d = digits(idx, &[BHE_SHAPES.len() as u64, BHE_ENDINGS.len() as u64, 2]);
+        json!({"definitions": BHE_SHAPES[d[0] as usize].0, "name_bytes": BHE_SHAPES[d[0] as usize].1, "then": BHE_ENDINGS[d[1] as usize], "protocol": if d[2] == 1 { "binary" } else { "text" }})
+    }
+}
+
 struct Names {
     lens: Vec<usize>,
 }
@@ -941,7 +1027,7 @@ pub fn build(quick: bool) -> Check {
     Check {
         id: "C09",
         level: "model_checking",
-        rule: format!("column descriptors declared through start() and StatementMetaWriter::reply on the real run_on, decoded by refwire and by mysql_common's Column/StmtPacket: table and column names of 2.8..16.7 MB (ten size pairs at which a definition mentioning a name once, twice or with its table crosses the packet limit); every column count 0..{} (and 65535 in thorough; resultset headers of 65536 and 70000 columns) with table names cycling A, tbl_b, A, \"\", multibyte; table/column name lengths {{0,1,250,251,252,65535,65536,70000}}^2 in ASCII and 2-byte UTF-8; lists of 70..4000 definitions totalling 100 KiB..400 KiB; all {} column types x all {} representable flag words; statement ids {{0,1,255,256,65535,65536,2^31,2^32-1}} x (parameters, columns) in {{0,1,2,250,251,1000}}^2. Histories: every sequence of <= 3 (thorough: 4) metadata-bearing exchanges on one connection over 40 events (text and binary resultset headers, chained headers, PREPARE replies reusing an id with other counts) built from 12 column lists that collide (same table+name concatenation split differently; lists differing only in flags, type, order or one name; the empty list); 17..2300 (thorough: ..66000) distinct column lists on one connection (plain, through PREPARE + EXECUTE, behind COM_FIELD_LIST, optionally behind a 5000-byte name), each declared a second time in another order; every sequence of <= 6 (thorough: 7) events over PREPARE (two ids, a re-prepare with another list), long data, EXECUTE answered with the declared or another list, CLOSE, COM_FIELD_LIST and a text resultset. Oracle: count, order, table, name, type, flags, id and both counts equal what was declared; EOF placement per the 4.1 protocol without DEPRECATE_EOF. Non-trivial = beyond the one-byte length class.", 1000, all_types().len(), nf),
+        rule: format!("column descriptors declared through start() and StatementMetaWriter::reply on the real run_on, decoded by refwire and by mysql_common's Column/StmtPacket: headers of 17..400 KB followed by eight kinds of response ending (rows, errors at once / after rows / behind finish_one, the same header again, writers dropped) in both protocols; table and column names of 2.8..16.7 MB (ten size pairs at which a definition mentioning a name once, twice or with its table crosses the packet limit); every column count 0..{} (and 65535 in thorough; resultset headers of 65536 and 70000 columns) with table names cycling A, tbl_b, A, \"\", multibyte; table/column name lengths {{0,1,250,251,252,65535,65536,70000}}^2 in ASCII and 2-byte UTF-8; lists of 70..4000 definitions totalling 100 KiB..400 KiB; all {} column types x all {} representable flag words; statement ids {{0,1,255,256,65535,65536,2^31,2^32-1}} x (parameters, columns) in {{0,1,2,250,251,1000}}^2. Histories: every sequence of <= 3 (thorough: 4) metadata-bearing exchanges on one connection over 40 events (text and binary resultset headers, chained headers, PREPARE replies reusing an id with other counts) built from 12 column lists that collide (same table+name concatenation split differently; lists differing only in flags, type, order or one name; the empty list); 17..2300 (thorough: ..66000) distinct column lists on one connection (plain, through PREPARE + EXECUTE, behind COM_FIELD_LIST, optionally behind a 5000-byte name), each declared a second time in another order; every sequence of <= 6 (thorough: 7) events over PREPARE (two ids, a re-prepare with another list), long data, EXECUTE answered with the declared or another list, CLOSE, COM_FIELD_LIST and a text resultset. Oracle: count, order, table, name, type, flags, id and both counts equal what was declared; EOF placement per the 4.1 protocol without DEPRECATE_EOF. Non-trivial = beyond the one-byte length class.", 1000, all_types().len(), nf),
         assumptions: vec!["ColumnFlags can only represent its defined bits; all representable words are covered".into()],
         bounds: json!({"max_columns": if quick {1000} else {65535}, "flag_words": nf}),
         exhaustive: true,
@@ -951,6 +1037,7 @@ pub fn build(quick: bool) -> Check {
             Box::new(HugeHeaders),
             Box::new(Names { lens: vec![0, 1, 250, 251, 252, 65535, 65536, 70000] }),
             Box::new(NamesMb),
+            Box::new(BulkyHeadersEndings),
             Box::new(BulkyLists),
             Box::new(TypesFlags { flags }),
             Box::new(WidePrepares),
@@ -966,6 +1053,6 @@ pub fn build(quick: bool) -> Check {
             Box::new(StmtLifecycles { depth: 6 }),
             Box::new(StmtLifecycles { depth: if quick { 2 } else { 7 } }),
         ],
-        required: vec!["names_of_megabytes", "aftermath_recovered", "huge_headers", "many_shapes", "metadata_histories", "statement_lifecycle_histories", "more_than_250_columns", "names_longer_than_250", "type_flag_pairs", "wide_statement_ids", "bulky_lists"],
+        required: vec!["bulky_headers_with_endings", "names_of_megabytes", "aftermath_recovered", "huge_headers", "many_shapes", "metadata_histories", "statement_lifecycle_histories", "more_than_250_columns", "names_longer_than_250", "type_flag_pairs", "wide_statement_ids", "bulky_lists"],
     }
 }
